@@ -33,7 +33,8 @@ class CSSProperty:
         self.value = (offset + start, offset + end)
         self.value_tokens = split_value(code[start:end], offset + start)
         self.before = before
-        self.after = offset + delimiter + 1
+        # The last property of a section may have no terminating `;`
+        self.after = offset + (delimiter + 1 if delimiter != -1 else end)
 
     def to_json(self):
         return {
@@ -232,7 +233,7 @@ def parse_properties(code: str, parse_from=0, parse_to=None) -> list:
                                     start, end, delimiter, parse_from))
                     release_range(pool, state.pending_name)
                     state.pending_name = None
-                state.before = parse_from + delimiter + 1
+                state.before = parse_from + (delimiter + 1 if delimiter != -1 else end)
 
     scan(fragment, scan_callback)
     return result
